@@ -283,6 +283,9 @@ fn child_gen(key: &Key, seed: u32, slot: u32, fmt_on: bool) -> Result<WOutcome, 
     }
     let req = key.json();
     let r = run_child(&ChildSpec { cmd: "gen", request: &req, env_clear: true, env, cwd: Some(&cwd), cpu_limit_s: 60, wall_limit_s: 120.0 });
+    if r.stderr.contains("stub formatter diagnostic") {
+        return Ok(WOutcome::Panic("the formatter's diagnostics were written to the caller's stderr".into()));
+    }
     match r.response.as_ref().and_then(|v| woutcome_from_json(&v["outcome"])) {
         Some(o) => Ok(o),
         None => Err(format!("worker child produced no result (exit {:?} signal {:?}) stderr: {}", r.exit_code, r.signal, r.stderr)),
@@ -358,6 +361,9 @@ fn judge(c: &Case, cache: &RefCache, stats: &mut Stats) -> Result<(), String> {
     env.push(("PATH".to_string(), path));
     env.push(("VERIF_FMT_MODE".to_string(), mode.to_string()));
     let r = run_child(&ChildSpec { cmd: "history", request: &req, env_clear: true, env, cwd: Some(&cwd), cpu_limit_s: 120, wall_limit_s: 300.0 });
+    if r.stderr.contains("stub formatter diagnostic") {
+        return Err("a call wrote the formatter's diagnostics to the caller's stderr: calls must not modify any state other than spawning the formatter".to_string());
+    }
     let Some(resp) = r.response else {
         eprintln!("C18 infrastructure: history worker produced no result (exit {:?} signal {:?}) {}", r.exit_code, r.signal, r.stderr);
         std::process::exit(2);
